@@ -156,6 +156,8 @@ impl Tree {
 
     /// Add a new node to the tree.
     pub fn add(&mut self, node: Node) -> NodeId {
+        // Any change to the tree invalidates the cached leaf index and bipartitions
+        self.reset_bipartition_cache();
         let idx = self.nodes.len();
         let mut node = node;
         node.id = idx;
@@ -226,6 +228,7 @@ impl Tree {
 
     /// Get a mutable reference to a specific Node of the tree
     pub fn get_mut(&mut self, id: &NodeId) -> Result<&mut Node, TreeError> {
+        self.reset_bipartition_cache();
         if *id >= self.nodes.len() {
             return Err(TreeError::NodeNotFound(*id));
         }
@@ -259,6 +262,7 @@ impl Tree {
 
     /// Get a mutable reference to a node in the tree by name
     pub fn get_by_name_mut(&mut self, name: &str) -> Option<&mut Node> {
+        self.reset_bipartition_cache();
         self.nodes
             .iter_mut()
             .find(|node| node.name.as_deref().is_some_and(|n| n == name))
@@ -1764,6 +1768,7 @@ impl Tree {
     /// )
     /// ```
     pub fn rescale(&mut self, factor: f64) {
+        self.reset_bipartition_cache();
         for node in self.nodes.iter_mut() {
             node.rescale_edges(factor)
         }
